@@ -1216,13 +1216,14 @@ func (t *ZeroAllocTokenizer) TokenizeOptimized() ([]Token, error) {
 		var endTokenType int
 		var endLength int
 
+		// A dash before the closing delimiter asks for whitespace removal after the tag,
+		// whether or not the opening delimiter carries one too. It belongs to the
+		// delimiter only if it lies inside the tag content.
+		closerDash := tagEndPos > tagContentStart && t.source[tagEndPos-1] == '-'
+
 		switch tagLoc.Type {
-		case TAG_VAR:
-			endTokenType = TOKEN_VAR_END
-			endLength = 2 // }}
-		case TAG_VAR_TRIM:
-			// Check if it ends with -}}
-			if tagEndPos > 0 && t.source[tagEndPos-1] == '-' {
+		case TAG_VAR, TAG_VAR_TRIM:
+			if closerDash {
 				endTokenType = TOKEN_VAR_END_TRIM
 				endLength = 3 // -}}
 				// Adjust tag content to remove the trailing dash
@@ -1231,12 +1232,8 @@ func (t *ZeroAllocTokenizer) TokenizeOptimized() ([]Token, error) {
 				endTokenType = TOKEN_VAR_END
 				endLength = 2 // }}
 			}
-		case TAG_BLOCK:
-			endTokenType = TOKEN_BLOCK_END
-			endLength = 2 // %}
-		case TAG_BLOCK_TRIM:
-			// Check if it ends with -%}
-			if tagEndPos > 0 && t.source[tagEndPos-1] == '-' {
+		case TAG_BLOCK, TAG_BLOCK_TRIM:
+			if closerDash {
 				endTokenType = TOKEN_BLOCK_END_TRIM
 				endLength = 3 // -%}
 				// Adjust tag content to remove the trailing dash
